@@ -25,6 +25,7 @@ out = build_step('out.txt', cmd=[executable('spy.sh')] + %(step)r, environment=%
 drv = test_driver([executable('driver.sh'), '--opt'])
 test([executable('child.sh')] + %(child)r, driver=drv)
 test([executable('single.sh')], driver=drv)
+test(env.srcdir.append('stringy.sh').string() + ' "c 2" x', driver=drv)
 default(plain, withlib, out)
 """ % {'step': STEP_ARGS, 'env': STEP_ENV, 'child': CHILD_ARGS}
 SPY = """#!/bin/sh
@@ -72,7 +73,7 @@ class ProcessArguments(Bounded):
             w(src + '/main.c', 'int main(void) { return 0; }\n')
             w(src + '/main2.c', 'int a(void);\nint main(void) { return a(); }\n')
             w(src + '/spy.sh', SPY % {'name': 'spy.sh', 'log': log, 'then': 'touch "$1"'}, 0o755)
-            for n in ('driver.sh', 'child.sh', 'single.sh'):
+            for n in ('driver.sh', 'child.sh', 'single.sh', 'stringy.sh'):
                 w(src + '/' + n, SPY % {'name': n, 'log': log, 'then': 'exit 0'}, 0o755)
             w(top + '/bin/spycc', SPY % {'name': 'cc', 'log': log, 'then': 'exec cc "$@"'}, 0o755)
             for name, mod in (('bfg9000', 'bfg9000.driver'), ('bfg9000-depfixer', 'bfg9000.depfixer')):
@@ -165,20 +166,96 @@ class ProcessArguments(Bounded):
                 if len(libs) != (1 if is_withlib else 0) or (own and not is_withlib):
                     return self.fail(case, raw, 'link_receives_its_libraries', argv=a)
             drv = [r_ for r_ in recs if r_[0] == 'driver.sh']
-            if len(drv) != 1 or len(drv[0][1]) != 3 or drv[0][1][0] != '--opt':
+            if len(drv) != 1 or len(drv[0][1]) != 4 or drv[0][1][0] != '--opt':
                 return self.fail(case, raw, 'driver_receives_one_argument_per_child', got=[r_[1] for r_ in drv])
             try:
                 child = shlex.split(drv[0][1][1])
                 single = shlex.split(drv[0][1][2])
+                stringy = shlex.split(drv[0][1][3])
             except ValueError as e:
                 return self.fail(case, raw, 'child_command_line_reads_back', got=drv[0][1], error=str(e))
-            if child != [src + '/child.sh'] + CHILD_ARGS or single != [src + '/single.sh']:
-                return self.fail(case, raw, 'child_command_line_reads_back', got=[child, single],
-                                 expected=[[src + '/child.sh'] + CHILD_ARGS, [src + '/single.sh']])
+            want_children = [[src + '/child.sh'] + CHILD_ARGS, [src + '/single.sh'], [src + '/stringy.sh', 'c 2', 'x']]
+            if [child, single, stringy] != want_children:
+                return self.fail(case, raw, 'child_command_line_reads_back', got=[child, single, stringy], expected=want_children)
+            return True
+        finally:
+            shutil.rmtree(top, ignore_errors=True)
+
+
+class InstallArguments(Bounded):
+    """The install commands of a generated project configured with a staging directory (DESTDIR) and a prefix that
+    contain blanks and a `;`: for Make (`make -n install`, after a build) and for Ninja (the `install` statement
+    evaluated by the manifest rules), every destination operand is exactly <DESTDIR><prefix>/<kind>/<name>, one word."""
+    target = 'bfg9000/builtins/install.py::_add_install_paths'
+    properties = ('C01', 'C02')
+    reason = 'whole pipeline to the command line of the install tool: runtime contract, command lines read by the sh word spec'
+    native_chunk = 1
+
+    def cases(self):
+        return ['make', 'ninja']
+
+    def native_inputs(self, case, alphabet, maxlen, rng, extra=0):
+        backend = {'C01': ['make'], 'C02': ['ninja']}.get(getattr(self, 'active_property', None), ['make', 'ninja'])
+        if case in backend:
+            for dd in ('st age;x', 'plain', ''):
+                yield {'backend': case, 'destdir': dd}
+
+    def native_check(self, case, raw):
+        import shutil, subprocess, tempfile
+        from pyvc.interp import REPO
+        from specs.ninja_eval import NinjaFile
+        from contracts.crossbackend import argv_of, split_and
+        top = tempfile.mkdtemp(prefix='pyvc_inst_argv_')
+        try:
+            src, b = top + '/src', top + '/b'
+            destdir = (top + '/' + raw['destdir']) if raw['destdir'] else ''
+            prefix = '/opt/pre fix'
+
+            def w(fp, text, mode=None):
+                os.makedirs(os.path.dirname(fp), exist_ok=True)
+                with open(fp, 'w') as f:
+                    f.write(text)
+                if mode:
+                    os.chmod(fp, mode)
+            w(src + '/build.bfg', "project('i')\nexe = executable('prog', files=['main.c'])\nhdr = header_file('api.h')\ninstall(exe, hdr)\n")
+            w(src + '/main.c', 'int main(void) { return 0; }\n')
+            w(src + '/api.h', '')
+            for name, mod in (('bfg9000', 'bfg9000.driver'), ('bfg9000-depfixer', 'bfg9000.depfixer')):
+                lp = top + '/bin/' + name
+                w(lp, "#!/bin/sh\nPYTHONPATH=%s exec /venv/bin/python -c 'import sys; sys.argv[0] = \"%s\"; "
+                      "from %s import main; sys.exit(main())' \"$@\"\n" % (REPO, lp, mod), 0o755)
+            w(top + '/bin/ninja', '#!/bin/sh\necho 1.10.1\n', 0o755)
+            env = dict(os.environ, PATH=top + '/bin:/venv/bin:' + os.environ['PATH'])
+            env.pop('MAKEFLAGS', None)
+            env.pop('DESTDIR', None)
+            if destdir:
+                env['DESTDIR'] = destdir
+            r = subprocess.run([top + '/bin/bfg9000', 'configure-into', src, b, '--backend=' + case, '--no-resolve-packages',
+                                '--prefix=' + prefix], env=env, capture_output=True, text=True, timeout=120)
+            if r.returncode != 0:
+                return self.fail(case, raw, 'configure_succeeds', stderr=r.stderr[-400:])
+            env.pop('DESTDIR', None)        # the staging directory is the configured one, not an ambient one
+            if case == 'make':
+                m = subprocess.run(['make', '-C', b], env=env, capture_output=True, text=True, timeout=300)
+                m = subprocess.run(['make', '-C', b, '--no-print-directory', '-n', 'install'], env=env, capture_output=True, text=True, timeout=60)
+                if m.returncode != 0:
+                    return self.fail(case, raw, 'install_commands_can_be_listed', output=(m.stdout + m.stderr)[-400:])
+                lines = [l for l in m.stdout.splitlines() if l.strip()]
+            else:
+                nf = NinjaFile(open(b + '/build.ninja').read())
+                inst = [x for x in nf.builds if 'install' in x.outputs]
+                if len(inst) != 1:
+                    return self.fail(case, raw, 'install_commands_can_be_listed', statements=len(inst))
+                lines = [nf.command(inst[0])]
+            words = [a.replace('\uff04', '$') for l in lines for c in split_and(l) for a in argv_of(c)]
+            for dest in (destdir + prefix + '/bin/prog', destdir + prefix + '/include/api.h'):
+                if words.count(dest) != 1:
+                    return self.fail(case, raw, 'destination_is_destdir_plus_configured_directory_as_one_word', expected=dest,
+                                     words=[x for x in words if 'prog' in x or 'api.h' in x or 'opt' in x][:12])
             return True
         finally:
             shutil.rmtree(top, ignore_errors=True)
 
 
 def registry():
-    return [ProcessArguments()]
+    return [ProcessArguments(), InstallArguments()]
